@@ -36,10 +36,36 @@ func main() {
 	repo := flag.String("repo", "/repo", "repository root")
 	verif := flag.String("verif", "/verif", "verif dir (evidence, known findings)")
 	dump := flag.String("dump", "", "debug: dump SSA of <pkgkey>:<func> with provenance renderings")
+	layout := flag.String("layout", "", "debug: print symbolic byte layouts / hash input of <pkgkey>:<func>")
 	pats := flag.String("patterns", "", "debug: comma separated package patterns for -dump")
 	flag.Parse()
 
 	start := time.Now()
+	if *layout != "" {
+		c, err := LoadRepo(*repo, corePkgs, true)
+		if err != nil {
+			fmt.Println("load error:", err)
+			os.Exit(2)
+		}
+		c.R = NewReport("dump", "quick")
+		fn := c.Funcs[*layout]
+		bi := newBufInterp(c, fn, func(v ssa.Value) bool { return ex(v) == "arg1" || strings.HasSuffix(ex(v), ".Payload") }, nil)
+		bi.run()
+		for root, cs := range bi.cells {
+			fmt.Println("buffer", ex(root))
+			for _, l := range layoutOf(cs) {
+				fmt.Println("   ", l)
+			}
+		}
+		for h, cs := range bi.emits {
+			fmt.Println("hash", ex(h))
+			for _, cl := range cs {
+				fmt.Println("   ", cl.val, cl.cond)
+			}
+		}
+		fmt.Println("undecided:", bi.undec)
+		return
+	}
 	if *dump != "" {
 		p := corePkgs
 		if *pats != "" {
